@@ -2,43 +2,125 @@ package hybridre2
 
 // C28 correspondence (dispatch): the decisions of Compile / useRE2 under the ZOEKT_RE2_THRESHOLD_BYTES value of THIS
 // process (the value is read once, so the check starts one process per setting), exported for Model/HybridRe.v.
-// Also a direct engine comparison on the dispatch boundary. Mapped into /repo/internal/hybridre2 by `go test -overlay`.
+// Also the oracle of the dispatch itself: for generated valid-UTF-8 inputs (incl. U+FFFD, BOM, U+2028, noncharacters,
+// U+10FFFF, control characters) of lengths straddling every threshold, several patterns and several match limits,
+// Regexp.FindAllIndex must return exactly what the engine selected by the model returns ON THE SAME BYTES AND LIMIT,
+// and must leave the input untouched. Mapped into /repo/internal/hybridre2 by `go test -overlay`.
 
 import (
+	"bytes"
 	"fmt"
+	"math/big"
 	"os"
-	"strconv"
-	"strings"
 	"testing"
+	"unicode/utf8"
 )
+
+var vfC28DPieces = []string{"needle", "aab", "ab", "a", "b", "x", " ", " ", "\n", "\n", "\t", "func needle() {}", "K", "k", "\u00e9", "\u4e16\u754c", "\U0001f600",
+	"\ufffd", "J\ufffdrgen", "\ufffdneedle", "needle\ufffd", "nee\ufffddle", "\ufeff", "\u2028", "\u2029", "\ufffe", "\uffff", "\U0010ffff", "\U00010000",
+	"\ud7ff", "\ue000", "\x01", "\x1f", "\x7f", "\u0085", "\u00a0", "e\u0301", "\u200b", "\r\n", "\u212a", "\u017f"}
+
+var vfC28DPatterns = []string{`a+b?`, `needle`, `(?i)NEEDLE\W`, `\w+`, `[^\n]+`, `\x{FFFD}`, `[^\x{FFFD}]+`, `.`, `(?s).+`, `\pC`, `[\x{FFFE}-\x{10FFFF}]`, `\b`, `$`, `(?m)^.`, `x*`}
+
+// valid UTF-8 of exactly n bytes
+func vfC28DInput(r *vfRand, n int, special bool) []byte {
+	var b bytes.Buffer
+	for b.Len() < n {
+		p := r.Pick(vfC28DPieces)
+		if !special && r.Chance(70) {
+			p = r.Pick(vfC28DPieces[:17])
+		}
+		if b.Len()+len(p) > n {
+			p = "x"
+		}
+		b.WriteString(p)
+	}
+	return b.Bytes()
+}
 
 func TestVerifC28D(t *testing.T) {
 	r := vfNewRand(vfSeed())
 	envTerm := "None"
-	if v, ok := os.LookupEnv(envThreshold); ok {
-		if n, err := strconv.ParseInt(v, 10, 64); err == nil { // independent re-reading of the setting (harness side)
-			envTerm = cSome(cZ(n))
+	rawEnv, isSet := os.LookupEnv(envThreshold)
+	if isSet {
+		// independent reading of the setting (harness side): optional sign, decimal digits, must fit int64
+		ok := rawEnv != ""
+		for i, c := range rawEnv {
+			if !(c >= '0' && c <= '9') && !(i == 0 && (c == '+' || c == '-') && len(rawEnv) > 1) {
+				ok = false
+			}
+		}
+		if ok {
+			if v, ok2 := new(big.Int).SetString(rawEnv, 10); ok2 && v.IsInt64() {
+				envTerm = cSome(cZ(v.Int64()))
+			}
 		}
 	}
-	re := MustCompile(`a+b?`)
-	lens := []int{0, 1, 2, 63, 64, 65, 4095, 4096, 4097, 100000}
+	envShown := rawEnv
+	if !isSet {
+		envShown = "(unset)"
+	}
+	probe := MustCompile(`a+b?`)
+	res := make([]*Regexp, len(vfC28DPatterns))
+	for i, p := range vfC28DPatterns {
+		res[i] = MustCompile(p)
+	}
+	lens := []int{0, 1, 2, 3, 63, 64, 65, 4095, 4096, 4097, 100000}
 	for i := 0; i < vfN(40); i++ {
-		lens = append(lens, r.Intn(6000))
+		switch {
+		case i%4 == 0:
+			lens = append(lens, r.Intn(130))
+		case i%4 == 1:
+			lens = append(lens, 4000+r.Intn(200))
+		default:
+			lens = append(lens, r.Intn(6000))
+		}
 	}
-	for _, n := range lens {
+	limits := []int{-1, -1, 1, 2, 5, 0}
+	for li, n := range lens {
 		used := useRE2(n)
-		coq := cTuple(envTerm, cNat(n), cBool(re.re2 != nil), cBool(used))
-		vfCase(coq, vfKey(envTerm, n), n > 0, []string{"env=" + os.Getenv(envThreshold), fmt.Sprint("used=", used)},
-			map[string]any{"env": os.Getenv(envThreshold), "len": n, "re2_compiled": re.re2 != nil, "use_re2": used})
-		// the dispatching FindAllIndex must return what the engine it claims to use returns
-		in := []byte(strings.Repeat("xaab ", n/5+1)[:n])
-		got := fmt.Sprint(re.FindAllIndex(in, -1))
-		want := fmt.Sprint(re.grafana.FindAllIndex(in, -1))
-		if used && re.re2 != nil {
-			want = fmt.Sprint(re.re2.FindAllIndex(in, -1))
+		coq := cTuple(envTerm, cNat(n), cBool(probe.re2 != nil), cBool(used))
+		vfCase(coq, vfKey(envTerm, n), n > 0, []string{"env=" + envShown, fmt.Sprint("used=", used)},
+			map[string]any{"env": envShown, "len": n, "re2_compiled": probe.re2 != nil, "use_re2": used})
+		// the dispatching FindAllIndex must return what the selected engine returns on the same bytes and limit
+		in := vfC28DInput(r, n, li%2 == 0)
+		if !utf8.Valid(in) || len(in) != n {
+			t.Fatalf("generator: invalid input (len %d, want %d)", len(in), n)
 		}
-		if got != want {
-			vfOracleFail("dispatch-result", "FindAllIndex does not return the selected engine's result", map[string]any{"env": os.Getenv(envThreshold), "len": n})
+		keep := append([]byte(nil), in...)
+		for k := 0; k < 4; k++ {
+			pi := (li + k*7 + r.Intn(3)) % len(res)
+			re := res[pi]
+			lim := limits[(li+k)%len(limits)]
+			got := fmt.Sprint(re.FindAllIndex(in, lim))
+			selected := "grafana"
+			want := fmt.Sprint(re.grafana.FindAllIndex(keep, lim))
+			if used && re.re2 != nil {
+				selected = "re2"
+				want = fmt.Sprint(re.re2.FindAllIndex(keep, lim))
+			}
+			if !bytes.Equal(in, keep) {
+				vfOracleFail("dispatch-mutates-input", "FindAllIndex changed the caller's bytes",
+					map[string]any{"env": envShown, "len": n, "pattern": vfC28DPatterns[pi], "limit": lim, "content": string(keep)})
+				copy(in, keep)
+			}
+			if got != want {
+				rp := map[string]any{"env": envShown, "len": n, "pattern": vfC28DPatterns[pi], "limit": lim, "selected_engine": selected,
+					"re2_compiled": re.re2 != nil, "got": vfC28DTrunc(got), "selected_engine_on_same_bytes": vfC28DTrunc(want)}
+				if n <= 5000 {
+					rp["content"] = string(keep)
+				} else {
+					rp["content_prefix"] = string(keep[:2000])
+				}
+				vfOracleFail("dispatch-result", "Regexp.FindAllIndex does not return the selected engine's result on the same bytes and limit", rp)
+			}
 		}
 	}
+}
+
+func vfC28DTrunc(s string) string {
+	if len(s) > 400 {
+		return s[:400] + "..."
+	}
+	return s
 }
